@@ -11,6 +11,8 @@ from harness.props import c03, c07
 ID = "C14"
 LEAN_MODULES = ["HierArc.Props.C14"]
 TRANSLATE = ["tables"]
+# when the translator cannot follow a rewritten source, the last generated model is run against the implementation instead
+TRANSLATOR_FALLBACK = True
 RULE = ("random kinematic / Ddt lens configurations (IFUKinCov, DdtGaussKin, DdtHistKin with 1-3 bins, optional a_ani "
         "scaling grid, systematic error; DdtGaussian, DdtHist, DdtHistKDE; IFU flag, LOS assignment, alpha/beta scaling) x "
         "random sharp hyper-parameters x fake cosmologies; N in {2,3,5}; plus scatter cases (moment check) and samples for "
